@@ -24,6 +24,7 @@ import subprocess
 import time
 
 from . import common as C
+from . import stdsrc
 
 PID = "C19"
 BATCH = 200
@@ -537,9 +538,11 @@ def work(h, items):
                 res["sample"] = {"helper": c["h"], "call": r["expr"], "predicted": exp_text(r["exp"]),
                                  "observed": obs_text(obs[i])}
             out.append(res)
-        clean = bool(grp) and stats["bisections"] == 0 and all(judge(obs[i], refs[i]["exp"]) for i in grp)
-        out.append({"stats": stats, "file": file_text(hdr, [refs[i]["expr"] for i in grp]) if clean else None,
-                    "fileexp": [refs[i]["exp"] for i in grp] if clean else None})
+        # a batch file that built as a whole can also go through the real binary (bindings that already
+        # disagreed here are not compared there a second time)
+        whole = bool(grp) and stats["bisections"] == 0 and sd % 7 == 0
+        out.append({"stats": stats, "file": file_text(hdr, [refs[i]["expr"] for i in grp]) if whole else None,
+                    "fileexp": [refs[i]["exp"] if judge(obs[i], refs[i]["exp"]) else None for i in grp] if whole else None})
         if h.n > 2500:       # the environment caches every file's ops by path: bound the harness's memory
             h.close()
             h.n = 0
@@ -608,7 +611,8 @@ def run_binary(ucg, base, files):
     env.pop("UCG_VERIF_TRACE", None)
     res = []
     for n, (textv, exps) in enumerate(files):
-        keep = [i for i, e in enumerate(exps) if len(e["ok"]) == 1 and not e["mayfail"] and jsonable(e["ok"][0])]
+        keep = [i for i, e in enumerate(exps)
+                if e is not None and len(e["ok"]) == 1 and not e["mayfail"] and jsonable(e["ok"][0])]
         if not keep:
             continue
         path = os.path.join(d, "s%d.ucg" % n)
@@ -699,6 +703,66 @@ def check_laws_can_fail(cmds):
                               % (cfg, law, r.violation, r.errtext[:1500]))
 
 
+ALL_FAMILIES = ["list1", "enum", "zip", "slice", "join", "tuple", "str1", "split", "splitat", "substr", "parseint",
+                "maybe", "basetype", "shaped", "anyall"]
+ALL_DEVS = ["TailEmptyFails", "ZipLongerRange", "JoinSepSkippedWhileEmpty", "ShapedTupleLastFieldDecides"]
+
+
+def _tla_set(xs):
+    return "{" + ", ".join('"%s"' % x for x in xs) + "}"
+
+
+class SourceCheck:
+    """Growth step: std/*.ucg of the working tree, parsed by the harness, evaluated by Eval.tla
+    inside TLC against the reference definitions (StdlibSrc.tla).  Runs in a thread next to the
+    replay.  SrcDevs = the deviations of the findings that are still open."""
+
+    def __init__(self, hp, tier, open_devs):
+        import threading
+        self.res = None
+        self.err = None
+        self.n = 0
+        self.gd = C.gen_dir("c19src")
+        src = stdsrc.load(hp)
+        self.path = os.path.join(self.gd, "stdsrc.json")
+        with open(self.path, "w", encoding="utf-8") as f:
+            json.dump(src, f)
+        with open(os.path.join(self.gd, "MC_StdlibSrc.tla"), "w") as f:
+            f.write("---- MODULE MC_StdlibSrc ----\nEXTENDS StdlibSrc\n====\n")
+        with open(os.path.join(self.gd, "MC_StdlibSrc.cfg"), "w") as f:
+            f.write("CONSTANTS\n  Families = %s\n  Size = \"%s\"\n  Sim = FALSE\n  Deviations = {}\n"
+                    "  KnownDevs = %s\n  SrcDevs = %s\n  Strict = TRUE\n  EnvVars <- NoEnvVars\n"
+                    "INIT Init\nNEXT Next\nCHECK_DEADLOCK FALSE\nINVARIANTS SrcAgrees PackagesEvaluate\n"
+                    % (_tla_set(ALL_FAMILIES), "srcq" if tier == "quick" else "src", _tla_set(ALL_DEVS),
+                       _tla_set(sorted(open_devs))))
+        self.th = threading.Thread(target=self._run, daemon=True)
+        self.th.start()
+
+    def _count(self, _o):
+        self.n += 1
+
+    def _run(self):
+        try:
+            self.res = C.run_tlc("MC_StdlibSrc", "MC_StdlibSrc", workers=WORKERS, on_replay=self._count, timeout=3000,
+                                 heap="6g", env_extra={"C19_SRC": self.path}, gendir=self.gd)
+        except BaseException as e:
+            self.err = e
+
+    def finish(self):
+        self.th.join()
+        shutil.rmtree(self.gd, ignore_errors=True)
+        if self.err is not None:
+            raise self.err
+        r = self.res
+        if r.violation:
+            raise C.ToolError("StdlibSrc.tla: %s violated - a std file does not evaluate under Eval.tla\n%s"
+                              % (r.violation, r.errtext[:2000]))
+        C.require_tlc_ok(r, "StdlibSrc")
+        if self.n + len(r.disagree) == 0:
+            raise C.ToolError("StdlibSrc evaluated no call (vacuous)")
+        return r
+
+
 def main(tier, replay=None):
     t0 = time.time()
     hp = C.ensure_harness()
@@ -757,6 +821,7 @@ def main(tier, replay=None):
     rng = random.Random(sd)
     rng.shuffle(allc)
     base = C.scratch_dir("c19")
+    srcchk = SourceCheck(hp, tier, [f["deviation"] for f in rep.findings if f.get("deviation")])
     items = []
     for b, lo in enumerate(range(0, len(allc), BATCH)):
         chunk = allc[lo:lo + BATCH]
@@ -775,7 +840,7 @@ def main(tier, replay=None):
             if "stats" in x:
                 totals["builds"] += x["stats"]["builds"]
                 totals["bisections"] += x["stats"]["bisections"]
-                if x["file"] and len(bin_files) < (3 if tier == "quick" else 25) and rng.random() < 0.2:
+                if x["file"]:
                     bin_files.append((x["file"], x["fileexp"]))
                 continue
             totals["n"] += 1
@@ -806,8 +871,42 @@ def main(tier, replay=None):
             info = dict(x["info"])
             info["expect"] = {"ok": info["expect"]["ok"], "mayfail": info["expect"]["mayfail"]}
             rep.disagree(info, key=k)
-        # 4. the real binary on a seeded sample of whole batch files
+        # 4. the std sources under Eval.tla (inside TLC): every disagreement with the reference is replayed on
+        #    the real code (DESIGN 3.7(4)): the code siding with the reference means Eval.tla and the
+        #    implementation differ on std's own source - a tool error, not a verdict
+        sr = srcchk.finish()
+        cmds.append(sr.cmd)
+        states += sr.distinct
+        trans += sr.generated
+        configs.append("StdlibSrc (%s): %d calls of the std sources evaluated by Eval.tla in TLC, %d disagreements, "
+                       "TLC %.0fs" % ("srcq" if tier == "quick" else "src", srcchk.n + len(sr.disagree),
+                                      len(sr.disagree), sr.wall))
+        C.log("[c19] StdlibSrc: %d source-level calls, %d disagreements, TLC %.0fs"
+              % (srcchk.n + len(sr.disagree), len(sr.disagree), sr.wall))
+        if sr.disagree:
+            ds = sr.disagree[:400]
+            for d in ds:
+                if "fam" not in d:
+                    raise C.ToolError("unparsable DISAGREE line: %r" % (d,))
+                # what is expected of the code: the reference under the open deviations
+                d["ok"], d["mayfail"], d["dev"], d["devok"], d["devfail"] = d["expok"], d["expfail"], "", [], False
+            h2 = C.Harness(hp, timeout=120)
+            out = work(h2, [(base, sd + 17, None, [json.dumps(d) for d in ds])])
+            h2.close()
+            for d, x in zip(ds, out):
+                if "bad" not in x:
+                    raise C.ToolError("the std source evaluated by Eval.tla yields %s for `%s` where the reference "
+                                      "(and the real code) say %s: Eval.tla and the implementation differ"
+                                      % (json.dumps(d["src"], ensure_ascii=False)[:300], x["expr"],
+                                         exp_text({"ok": [], "mayfail": d["expfail"]}) if not d["expok"] else "a value"))
+                k = "source:%s" % d["h"]
+                keys[k] = keys.get(k, 0) + 1
+                info = dict(x["info"])
+                info["source_under_Eval_tla"] = d["src"]
+                rep.disagree(info, key=k)
+        # 5. the real binary on a seeded sample of whole batch files
         ucg = C.ensure_ucg()
+        bin_files = rng.sample(bin_files, min(len(bin_files), 4 if tier == "quick" else 30))
         bin_runs = bin_vals = 0
         for path, nvals, problems, textv in run_binary(ucg, base, bin_files):
             bin_runs += 1
@@ -840,6 +939,7 @@ def main(tier, replay=None):
         "calls_per_helper": dict(sorted(perh.items())),
         "calls_predicted_to_fail": totals["failpred"], "calls_left_open": totals["open"],
         "builds": totals["builds"], "batches_bisected": totals["bisections"],
+        "source_calls_evaluated_by_Eval_in_TLC": srcchk.n + len(sr.disagree), "source_disagreements": len(sr.disagree),
         "batch_files_through_ucg_binary": bin_runs, "values_checked_in_out_json": bin_vals,
         "samples": [by[k] for k in sorted(by)][:14] or samples[:3] or [{"note": "no agreeing call this run"}],
         "exhaustive": False,
